@@ -79,7 +79,7 @@ CLAIMS = {
          "recorded preconditions: read_n <= isize::MAX, addr <= i64::MAX (DAP path), len <= cap for the deque ring.",
          "Verus implicit obligations on mechanically extracted real functions", "2/C08"),
  "C13": ("proof",
-         "[session 3d] Also: the record of a verified source / function breakpoint holds EVERY location the debugger installed for it (found and repaired: fix bc7cedb, a source breakpoint on a line of a generic function kept only its first location, the others survived the next setBreakpoints and ignored logMessage/condition). "
+         "[session 3d] Also: the record of a verified source / function / instruction breakpoint holds EVERY location the debugger installed for it (found and repaired: fix bc7cedb, a source breakpoint on a line of a generic function kept only its first location, the others survived the next setBreakpoints and ignored logMessage/condition). "
          "[session 3c] Also: record_breakpoint_hit counts every arrival once (saturating) and judges the new count with the record's own options. "
          "[session 3b] Also: Verus proofs of the replace protocol of handle_set_breakpoints / set_instruction / set_function breakpoints (the set that is removed from the debugger is the one stored under the same key / of the same kind; other kinds untouched; loop bodies outlined), of the stop filter loop of emit_stop_reason (the stop that is announced passed the exception filter and was not skipped; the debuggee is resumed once per filtered stop), of literal_truthy and of the evaluation order of evaluate_condition_expression. "
          "[session 3] Also: Verus proofs that the three record predicates of with_breakpoint_record_mut match a record iff the stop address is ANY of its addresses (first match), that should_skip_breakpoint decides exactly as the property says (condition false => skip silently; hit condition not met => skip; logpoint => log once and skip; otherwise stop) and that BreakpointRegistry::remove_by_addr removes whatever is registered under the address (installed or not) and nothing else. "
@@ -140,7 +140,7 @@ CLAIMS = {
          "psABI Fig. 3.36 typed into the harness as oracle.",
          "Kani proofs on the real crate, full-domain symbolic inputs", "2/C19+C05"),
  "C11": ("proof",
-         "[session 3d] Also: WatchpointRegistry::remove records the debug-register image without the removed watchpoint as the state new threads inherit; the process template remembered for an attached process holds the command line without argv[0]. "
+         "[session 3d] Also: WatchpointRegistry::remove records the debug-register image without the removed watchpoint as the state new threads inherit; the process template remembered for an attached process holds the command line without argv[0]; disable_all_breakpoints leaves the installed table empty. "
          "[session 3b] Also: Verus proof on the per-template body of enable_all_breakpoints that a breakpoint whose code is not mapped yet stays registered (found and repaired: fix ea880a9, breakpoints in dlopen'ed libraries were dropped by restart). "
          "[session 3] Also: Verus proofs on the real Drop::drop (launched process killed and reaped in every state; attached process released with all LIVE threads detached, no patch, no armed debug register, SIGCONT iff something was released), Debugger::restart_debugee (the new process is created only when the old one is gone; exactly one new process) and the per-breakpoint body of disable_all_breakpoints (user/entry breakpoints survive as one template keyed by the load-independent address with their number). "
          "Verus proof of the real Debugger::detach against a ghost protocol model: the threads are released with PTRACE_DETACH only "
